@@ -1,6 +1,7 @@
 package props
 
 import (
+	"go/constant"
 	"fmt"
 	"go/ast"
 	"go/token"
@@ -7062,6 +7063,18 @@ func (x *c03Ctx) evalEof(f *core.Func, e ast.Expr, runes map[types.Object]bool, 
 				}
 				eq := tv.Value.ExactString() == eofC.Val().ExactString()
 				return eq == (v.Op == token.EQL), true
+			}
+		case token.LSS, token.LEQ, token.GTR, token.GEQ:
+			// an ordered comparison of the rune with a constant: '0' <= r, r <= '9'
+			if isRune(v.X) {
+				if tv, ok := info.Types[v.Y]; ok && tv.Value != nil {
+					return constant.Compare(constant.ToInt(eofC.Val()), v.Op, constant.ToInt(tv.Value)), true
+				}
+			}
+			if isRune(v.Y) {
+				if tv, ok := info.Types[v.X]; ok && tv.Value != nil {
+					return constant.Compare(constant.ToInt(tv.Value), v.Op, constant.ToInt(eofC.Val())), true
+				}
 			}
 		}
 	case *ast.CallExpr:
